@@ -1093,6 +1093,10 @@ class PyCdlib:
                     self._seek_to_extent(ce_record.bl_cont_area)
                     cdfp.seek(ce_record.offset_cont_area, os.SEEK_CUR)
                     con_block = cdfp.read(ce_record.len_cont_area)
+                    if len(con_block) != ce_record.len_cont_area:
+                        # The continuation area lies (partly) beyond the end
+                        # of the file; what it held is lost.
+                        raise pycdlibexception.PyCdlibInvalidISO('Rock Ridge continuation area beyond the end of the ISO')
                     new_record.rock_ridge.parse(con_block, False,
                                                 new_record.rock_ridge.bytes_to_skip,
                                                 True, new_record.file_identifier())
